@@ -327,7 +327,7 @@ def naming_programs():
     k = 0
     for (R, C) in [(1, 1), (2, 1), (2, 3), (3, 2), (8, 12), (5, 7)]:
         n = R * C
-        for pattern in ("default", "partial", "explicit", "shared", "partial-none", "like-default"):
+        for pattern in ("default", "partial", "explicit", "shared", "partial-none", "like-default", "blanks"):
             init = [((i * 7) % 5) for i in range(n)]
             if pattern == "default":
                 names = None
@@ -335,6 +335,10 @@ def naming_programs():
                 names = [(f"n{i}" if (v > 0 and i % 2 == 0) else None) for i, v in enumerate(init)]
             elif pattern == "explicit":
                 names = [(f"n{i}" if v > 0 else None) for i, v in enumerate(init)]
+            elif pattern == "blanks":
+                # names are taken as they are given: blanks at the ends belong to the name ("buffer" and "buffer " are two liquids)
+                pool = ["buffer", "buffer ", " buffer", "two words", "tab\tinside", " "]
+                names = [(pool[i % len(pool)] if v > 0 else None) for i, v in enumerate(init)]
             elif pattern == "like-default":
                 # the first filled well is given the name that the LAST filled well gets by default
                 filled = [i for i, v in enumerate(init) if v > 0]
@@ -352,7 +356,7 @@ def naming_programs():
                 {"op": "transfer", "src": 0, "sw": L([(0, 0)] if R == 1 else [(1, 0)]), "dst": 0, "dw": L([(0, C - 1)]), "vols": S(1), "label": "pool", "wash": 1}]
             progs.append(h)
     for (V, C) in [(1, 1), (4, 1), (1, 3), (8, 4), (16, 2)]:
-        for pattern in ("default", "partial", "explicit"):
+        for pattern in ("default", "partial", "explicit", "blanks"):
             init = [((i * 3) % 4) * 5 for i in range(C)]
             if C == 1:
                 init = [5]
@@ -360,6 +364,8 @@ def naming_programs():
                 names = None
             elif pattern == "partial":
                 names = [("water" if (v > 0 and i % 2 == 0) else None) for i, v in enumerate(init)]
+            elif pattern == "blanks":
+                names = [([" water", "water ", "water"][i % 3] if v > 0 else None) for i, v in enumerate(init)]
             else:
                 names = [(f"liq{i}" if v > 0 else None) for i, v in enumerate(init)]
             h = _hdr(f"naming/trough{V}x{C}-{pattern}", "fluent", [gen.mk_trough("media", V, C, 0, 50, init, names)])
@@ -400,6 +406,16 @@ def reject_programs(dev):
         ("len-3-2-3", L([(0, 0), (1, 0), (2, 0)]), L([(0, 1), (1, 1)]), L([1, 1, 1])),
         ("negative", L([(0, 0), (0, 0)]), L([(0, 1), (1, 1)]), L([-1, 2])),
         ("negative-scalar", L([(0, 0)]), L([(0, 1)]), S(-3)),
+    ]
+    # tables against lists: sizes that differ are incompatible even where numpy could broadcast the shapes
+    tab = M([[(0, 0), (0, 1), (0, 2)], [(1, 0), (1, 1), (1, 2)]])
+    tab2 = M([[(2, 0), (2, 1), (2, 2)], [(0, 3), (1, 3), (2, 3)]])
+    cases += [
+        ("table-2x3-list-3", tab, tab2, L([1, 1, 1])),
+        ("table-2x3-list-2", tab, tab2, L([1, 1])),
+        ("table-2x3-column-2x1", tab, M([[(2, 0)], [(2, 1)]]), S(1)),
+        ("table-2x3-row-1x3", tab, M([[(2, 0), (2, 1), (2, 2)]]), S(1)),
+        ("table-2x3-table-2x1-volumes", tab, tab2, M([[1], [1]])),
     ]
     for name, sw, dw, v in cases:
         h = _hdr(f"reject/{name}", dev, base_labware(), flags={"comp": False, "norm": False})
@@ -664,6 +680,9 @@ def badwell_programs(dev):
             {"op": "dispense", "lw": P, "wells": L([w2, (0, 1)]), "vols": L([0, 1]), "label": "bad first, zero"},
             {"op": "dispense", "lw": P, "wells": L([(0, 1), w2]), "vols": L([1, 0]), "label": "bad second, zero"},
             {"op": "remove", "lw": P, "wells": L([w2]), "vols": S(0), "label": None},
+            # within one labware: an unknown source next to known destinations and the other way round, after a valid pair
+            {"op": "transfer", "src": P, "sw": L([(0, 0), w2]), "dst": P, "dw": L([(0, 1), (0, 2)]), "vols": S(1), "label": "bad src inside one plate", "wash": 1},
+            {"op": "transfer", "src": P, "sw": L([(0, 0), (1, 1)]), "dst": P, "dw": L([(0, 1), w2]), "vols": S(1), "label": "bad dst inside one plate", "wash": 1},
             {"op": "transfer", "src": T, "sw": L([(0, 0)]), "dst": P, "dw": L([(0, 1)]), "vols": S(1), "label": "fine", "wash": 1},
         ]
         progs.append(h)
@@ -709,6 +728,23 @@ def rounding_programs(dev, r):
                 wells = [list(r.choice(gen.id_wells(spec))) for _ in wells]
             ops.append({"op": name, "lw": k, "wells": {"k": "l", "x": wells}, "vols": {"k": "l", "x": vols}, "label": None})
         h["ops"] = ops
+        progs.append(h)
+    return progs
+
+
+def thirddecimal_limit_programs(dev):
+    """Steps a few thousandths of a microlitre above the worklist's max_volume (their two-decimal text equals the limit's):
+    too large all the same (C03.oversized, C06.nosplit); the limit itself and a hair below it are fine."""
+    progs = []
+    for auto in (False, True):
+        lws = [gen.mk_plate("plate", 3, 4, 0, 2000000, [500000] * 12), gen.mk_trough("trough", 4, 2, 1000, 90000000, [50000000, 40000000])]
+        h = gen.header(f"thirddecimal/{'split' if auto else 'nosplit'}", dev, Fraction(1, 1000), 200000, lws, autosplit=auto, flags={"comp": False, "norm": False})
+        h["millis"] = True
+        one = lambda k, w, v, name: {"op": name, "lw": k, "wells": {"k": "l", "x": [list(w)]}, "vols": {"k": "l", "x": [v]}, "label": None}  # noqa
+        h["ops"] = [one(1, (0, 0), 200004, "aspirate"), one(0, (0, 1), 200001, "dispense"), one(1, (1, 0), 200000, "aspirate"),
+                    one(0, (1, 1), 199996, "dispense"), one(1, (0, 1), 200049, "aspirate"), one(0, (2, 1), 200051, "dispense"),
+                    {"op": "transfer", "src": 1, "sw": L([(0, 0)]), "dst": 0, "dw": L([(0, 2)]), "vols": L([200004]), "label": "a hair too large", "wash": 1},
+                    {"op": "transfer", "src": 1, "sw": L([(0, 0), (1, 0)]), "dst": 0, "dw": L([(1, 2), (2, 2)]), "vols": L([199996, 200000]), "label": "fits", "wash": 1}]
         progs.append(h)
     return progs
 
